@@ -867,13 +867,19 @@ protected:
 	////////////////////////////////////////////////////////////////////////////////////////////////////////
 	// private helper methods
 
+	// a 64-bit integer has up to 64 significant bits: the two 32-bit halves convert exactly and are renormalised with an
+	// (exact) fast two-sum. (Casting the rounded double back to an integer overflows for values that round up to 2^63 / 2^64.)
 	constexpr qd& convert_signed(int64_t v) noexcept {
 		if (0 == v) {
 			setzero();
 		}
 		else {
-			x[0] = static_cast<double>(v);
-			x[1] = static_cast<double>(v - static_cast<int64_t>(x[0]));
+			const double upper = static_cast<double>(v >> 32) * 4294967296.0; // floor(v / 2^32) * 2^32
+			const double lower = static_cast<double>(static_cast<uint32_t>(v));
+			x[0] = upper + lower;
+			x[1] = lower - (x[0] - upper);
+			x[2] = 0.0;
+			x[3] = 0.0;
 		}
 		return *this;
 	}
@@ -883,8 +889,12 @@ protected:
 			setzero();
 		}
 		else {
-			x[0] = static_cast<double>(v);
-			x[1] = static_cast<double>(v - static_cast<uint64_t>(x[0]));  // difference is always positive
+			const double upper = static_cast<double>(v >> 32) * 4294967296.0;
+			const double lower = static_cast<double>(static_cast<uint32_t>(v));
+			x[0] = upper + lower;
+			x[1] = lower - (x[0] - upper);
+			x[2] = 0.0;
+			x[3] = 0.0;
 		}
 		return *this;
 	}
